@@ -65,6 +65,22 @@ def gen(ck):
 # ---------------------------------------------------------------------------------------------
 # scenarios
 # ---------------------------------------------------------------------------------------------
+POISON0 = 500000
+
+
+def strip_poison(rest):
+    """`F k (id m child*m)*k` without the children whose feeder::add fails (the model sees the adds that succeed)"""
+    if not rest or rest[0] != "F":
+        return rest
+    k, out, i = int(rest[1]), [], 2
+    for _ in range(k):
+        pid, m = rest[i], int(rest[i + 1])
+        kids = [c for c in rest[i + 2:i + 2 + m] if int(c) < POISON0]
+        out += [pid, str(len(kids))] + kids
+        i += 2 + m
+    return ["F", str(k)] + out + rest[i:]
+
+
 def feed_table(rng, ids, depth, maxkids, next_id):
     """feeds for a forest: each item of `ids` may add up to maxkids new items, recursively up to `depth` levels"""
     table = {}
@@ -76,8 +92,13 @@ def feed_table(rng, ids, depth, maxkids, next_id):
             if k:
                 kids = list(range(next_id[0], next_id[0] + k))
                 next_id[0] += k
-                table[x] = kids
                 nxt += kids
+                # a child whose copy / move constructor throws inside feeder::add (ids >= POISON0): the body catches and feeds on
+                if rng.random() < 0.3:
+                    kids = list(kids)
+                    kids.insert(rng.randrange(0, len(kids)), POISON0 + next_id[0])
+                    next_id[0] += 1
+                table[x] = kids
         level = nxt
         if not level:
             break
@@ -153,7 +174,8 @@ def driver_input(sc, trace, consts):
     if w[0] == "each":
         cat, T, n = w[1], int(w[2]), int(w[6])
         ids = w[7:7 + n]
-        rest = w[7 + n:]           # F k …
+        rest = strip_poison(w[7 + n:])           # F k …
+        trace = [l for l in trace if not (l.startswith("ev ") and l.split()[2] == "addthrow")]
         mb = consts["maxBlockInput"] if cat == "i" else consts["maxBlockForward"]
         chunks = ra_chunks(trace) if cat == "r" else []
         cfg = "cfgE %s %d %d %d %s %s C %d %s" % (cat, T, mb, n, " ".join(ids), " ".join(rest), len(chunks), " ".join("%d %d" % c for c in chunks))
@@ -170,6 +192,14 @@ def monitors(sc, trace, mline, consts):
     if M.get("problem", "-") != "-":
         return M["problem"].replace("_", " ")
     w = sc.split()
+    # a failed feeder::add (the item's copy / move constructor threw) changes no counter
+    prev = None
+    for l in trace:
+        snap = l.split(" | ", 1)[1] if " | " in l else None
+        if l.startswith("ev ") and l.split()[2] == "addthrow" and prev is not None and snap is not None and snap != prev:
+            return "a feeder::add that failed (item constructor threw) changed the reference counters: %s -> %s" % (prev, snap)
+        if snap is not None:
+            prev = snap
     if w[0] == "each" and w[1] in "if":
         n = int(w[6])
         mb = consts["maxBlockInput"] if w[1] == "i" else consts["maxBlockForward"]
